@@ -1,14 +1,12 @@
-\* C02 / C03: all well-formed histories of one connection, <= MaxLen messages,
-\* ids {2,3,4} + one server-range id, <= 3 incarnations per id
 CONSTANTS
   Dict <- MCDict
   Proto <- MiniProto
   Tags = {""}
   CIds = {2, 3}
   SIds <- SrvIds1
-  MaxLen = 6
+  MaxLen = 5
   MaxGen = 3
-  Gaps = {1}
+  Gaps = {0, 7, 1000001}
   Cmds <- NoCmds
   Junk <- NoJunk
   Filter0 <- NoFilter
